@@ -4,53 +4,78 @@
    by the correspondence runs of harness/cmd/c02. *)
 From Coq Require Import List ZArith Bool String.
 Import ListNotations.
-From GU Require Import C02.Path C02.PathLemmas C02.Model C02.Proofs.
+From GU Require Import C02.Path C02.PathLemmas C02.Model C02.Proofs C02.Gen.
 Local Open Scope Z_scope.
+
+(* The theorems come in pairs: for EVERY record of facts satisfying the condition the proof needs ([san_ok], [nested_ok],
+   [unzip_ok]: which tests the sanitiser makes and on what, what unzip applies it to, ...), and for the record [generated]
+   that translator-c02 extracts from zip.go / filepath.go on every run, the condition being discharged by computation.
+   A change of the source that alters a fact a theorem depends on breaks that theorem's [..._generated] instance. *)
 
 (* Whatever the destination (absolute, relative, trailing separators, root, ".") and whatever the entry name (any bytes:
    ".." anywhere, absolute, doubled separators, backslashes, control and non-UTF-8 bytes), a path accepted by
    sanitiseZipExtractPath resolves to the cleaned destination or below it, element-wise: the elements of the destination
-   followed by elements none of which is "..".  Both shapes of the ".." test (substring, cv=false; element, cv=true). *)
-Theorem sanitise_sound : forall cv dest name p,
-  sanitise cv (clean dest) name = Some p -> within (clean dest) p.
+   followed by elements none of which is "..".  Needs: Join(destination, name), no early return for ".", a ".." test
+   (substring, element ==, element prefix) on destPath, prefix tests against destination + separator. *)
+Theorem sanitise_sound : forall f dest name p, san_ok f = true ->
+  sanitise f (clean dest) name = Some p -> within (clean dest) p.
 Proof. exact sanitise_sound_lemma. Qed.
 Print Assumptions sanitise_sound.
 
+Theorem sanitise_sound_generated : forall dest name p,
+  sanitise generated (clean dest) name = Some p -> within (clean dest) p.
+Proof. intros dest name p. apply sanitise_sound_lemma. vm_compute. reflexivity. Qed.
+Print Assumptions sanitise_sound_generated.
+
 (* Second sentence of the property: an entry whose joined path does not stay within the destination is refused with
    the 'suspected malicious intent' kind (None). *)
-Theorem sanitise_rejects_escape : forall cv dest name,
-  ~ within (clean dest) (join2 (clean dest) name) -> sanitise cv (clean dest) name = None.
+Theorem sanitise_rejects_escape : forall f dest name, san_ok f = true ->
+  ~ within (clean dest) (join2 (clean dest) name) -> sanitise f (clean dest) name = None.
 Proof. exact sanitise_rejects_escape_lemma. Qed.
 Print Assumptions sanitise_rejects_escape.
 
 (* The same with the escape notion stated on the RAW entry: destination, '/', entry name, resolved lexically with its
    ".." steps (no reference to filepath.Clean / Join in the hypothesis). *)
-Theorem sanitise_rejects_raw_escape : forall cv dest name,
-  ~ within (clean dest) (clean dest ++ slash :: name) -> sanitise cv (clean dest) name = None.
+Theorem sanitise_rejects_raw_escape : forall f dest name, san_ok f = true ->
+  ~ within (clean dest) (clean dest ++ slash :: name) -> sanitise f (clean dest) name = None.
 Proof. exact sanitise_rejects_raw_escape_lemma. Qed.
 Print Assumptions sanitise_rejects_raw_escape.
 
+Theorem sanitise_rejects_raw_escape_generated : forall dest name,
+  ~ within (clean dest) (clean dest ++ slash :: name) -> sanitise generated (clean dest) name = None.
+Proof. intros dest name. apply sanitise_rejects_raw_escape_lemma. vm_compute. reflexivity. Qed.
+Print Assumptions sanitise_rejects_raw_escape_generated.
+
 (* Destination of a nested archive (recursive mode): derived from an accepted entry path other than the destination
-   itself, it stays within the destination — for Join(Dir p, Stem p) under the substring test (cv=false: the stem cannot be
-   ".." because p has no ".." substring) and for the re-sanitised form under the element test (cv=true). *)
-Theorem nested_dest_within : forall cv d name p nd,
-  clean d = d -> sanitise cv d name = Some p -> p <> d -> nested_dest cv p = Some nd ->
+   itself, it stays within the destination — when it goes through the sanitiser, or, for a bare Join(Dir p, Stem p), when
+   the ".." test is the substring test (the stem cannot be ".." because p has no ".." substring): [nested_ok]. *)
+Theorem nested_dest_within : forall f d name p nd,
+  san_ok f = true -> nested_ok f = true -> uz_clean_first f = true ->
+  clean d = d -> sanitise f d name = Some p -> p <> d -> nested_dest f p = Some nd ->
   within d nd /\ clean nd = nd.
 Proof. exact nested_dest_within. Qed.
 Print Assumptions nested_dest_within.
 
 (* Whole extraction: for EVERY archive (any entries, kinds, order, names over all bytes, nesting to any depth —
-   structural induction over the nested-archive tree), every destination, every initial file-system state, both shapes of
-   the ".." test, recursive or not, either back end, and EVERY behaviour of the path transcoding (transcode is universally
-   quantified: after the C02 fix the converted path is sanitised again, so no hypothesis on chardet / x-text is needed):
-   every mutating operation the extraction adds has a path within the cleaned destination, except that MkdirAll may
-   also name the destination's own ancestors (which exist once MkdirAll(destination) has succeeded); and every path in the
-   returned file list is within the destination. *)
-Theorem unzip_confined : forall transcode cv recursive membackend dest a s0 s fl r,
-  unzip transcode cv recursive membackend dest a s0 = (s, fl, r) ->
+   structural induction over the nested-archive tree), every destination, every initial file-system state, recursive or
+   not, either back end, and EVERY behaviour of the path transcoding (transcode is universally quantified: the converted
+   path is sanitised again, so no hypothesis on chardet / x-text is needed): every mutating operation the extraction adds
+   has a path within the cleaned destination, except that MkdirAll may also name the destination's own ancestors (which
+   exist once MkdirAll(destination) has succeeded); and every path in the returned file list is within the destination.
+   Needs [unzip_ok]: a sound sanitiser applied to every entry after cleaning the destination, the path not rewritten,
+   MkDir / OpenFile / Chtimes / Rm on the sanitised paths only and after sanitisation, the converted path re-sanitised
+   (CutPrefix + sanitiser) before anything touches it, regular files and directories only, a safe nested destination. *)
+Theorem unzip_confined : forall f transcode recursive membackend dest a s0 s fl r, unzip_ok f = true ->
+  unzip transcode f recursive membackend dest a s0 = (s, fl, r) ->
   (exists new, ops s = new ++ ops s0 /\ Forall (allowed (clean dest)) new) /\ Forall (within (clean dest)) fl.
-Proof. exact unzip_confined_lemma. Qed.
+Proof. intros f transcode recursive membackend dest a s0 s fl r. apply unzip_confined_lemma. Qed.
 Print Assumptions unzip_confined.
+
+Theorem unzip_confined_generated : forall transcode recursive membackend dest a s0 s fl r,
+  unzip transcode generated recursive membackend dest a s0 = (s, fl, r) ->
+  (exists new, ops s = new ++ ops s0 /\ Forall (allowed (clean dest)) new) /\ Forall (within (clean dest)) fl.
+Proof. intros transcode recursive membackend dest a s0 s fl r. apply unzip_confined_lemma. vm_compute. reflexivity. Qed.
+Print Assumptions unzip_confined_generated.
 
 (* Lexical containment of a relative path is preserved when both are anchored at any absolute working directory
    (component-wise resolution on a tree without symbolic links: ".." pops, at the root it stays) — so [within] on the
@@ -76,9 +101,20 @@ Print Assumptions clean_preserves_resolution.
 
 (* ---- non-vacuity and documented corner cases (evaluated, not property theorems) ---- *)
 
-Example accept_plain : sanitise false (clean (bs "/d/")) (bs "a//b/./c") = Some (bs "/d/a/b/c").
+(* the tree with the substring test and a bare Join for nested archives; the tree with the element test and a sanitised
+   nested destination (what [generated] is today); the hazardous mix: element test with a bare Join *)
+Definition facts_substring : zfacts :=
+  mkFacts true false true DDSubstring true true true true true true true true true true true true true true true false true true.
+Definition facts_element : zfacts :=
+  mkFacts true false true DDElemEq true true true true true true true true true true true true true true true true true true.
+Definition facts_element_join : zfacts :=
+  mkFacts true false true DDElemEq true true true true true true true true true true true true true true true false true true.
+Example facts_examples_ok : unzip_ok facts_substring = true /\ unzip_ok facts_element = true /\ unzip_ok facts_element_join = false.
+Proof. vm_compute. repeat split; reflexivity. Qed.
+
+Example accept_plain : sanitise facts_substring (clean (bs "/d/")) (bs "a//b/./c") = Some (bs "/d/a/b/c").
 Proof. vm_compute. reflexivity. Qed.
-Example reject_parent : sanitise false (clean (bs "/d")) (bs "a/../../evil") = None /\ sanitise true (clean (bs "/d")) (bs "../evil") = None.
+Example reject_parent : sanitise facts_substring (clean (bs "/d")) (bs "a/../../evil") = None /\ sanitise facts_element (clean (bs "/d")) (bs "../evil") = None.
 Proof. vm_compute. split; reflexivity. Qed.
 Example within_dec_examples :
   withinb (bs "/d") (bs "/d/x/../y") = true /\ withinb (bs "/d") (bs "/d/../x") = false /\ withinb (bs "rel") (bs "rel/../../x") = false.
@@ -89,8 +125,8 @@ Proof. vm_compute. repeat split; reflexivity. Qed.
 Example converted_path_refused :
   let d := bs "/s/a/dest" in
   let name := [46; 27; 40; 66; 46; 47; 46; 27; 40; 66; 46; 47; 101; 118; 105; 108; 255] in
-  exists p, sanitise false d name = Some p /\
-            resanitise false d p (bs "/s/a/dest/../../evil?") = None /\
+  exists p, sanitise facts_substring d name = Some p /\
+            resanitise facts_substring d p (bs "/s/a/dest/../../evil?") = None /\
             withinb d (bs "/s/a/dest/../../evil?") = false.
 Proof.
   exists [47; 115; 47; 97; 47; 100; 101; 115; 116; 47; 46; 27; 40; 66; 46; 47; 46; 27; 40; 66; 46; 47; 101; 118; 105; 108; 255].
@@ -101,16 +137,16 @@ Qed.
    stem is "..", and Join(Dir p, Stem p) is the parent of the destination; the sanitised form refuses it *)
 Example element_test_needs_nested_guard :
   let d := bs "/s/dest" in
-  exists p, sanitise true d (bs "...zip") = Some p /\
-            withinb d (clean (join2 (dir p) (stem p))) = false /\
-            nested_dest true p = None /\ sanitise false d (bs "...zip") = None.
+  exists p, sanitise facts_element d (bs "...zip") = Some p /\
+            nested_dest facts_element_join p = Some (bs "/s") /\ withinb d (bs "/s") = false /\
+            nested_dest facts_element p = None /\ sanitise facts_substring d (bs "...zip") = None.
 Proof. exists (bs "/s/dest/...zip"). vm_compute. repeat split; reflexivity. Qed.
 
 (* a complete run: directory, file, nested archive with a directory; all 13 operations within the destination *)
 Example unzip_run :
   let a := AEntry (bs "d/") KDir (AEntry (bs "d/f.txt") KFile
            (ANested (bs "n.zip") (AEntry (bs "i/") KDir (AEntry (bs "i/j") KFile ANil)) ANil)) in
-  let '(s, fl, r) := unzip (fun p => Some p) false true true (bs "/x/dest/") a (mkSt [bs "/x"; bs "/"] [] []) in
+  let '(s, fl, r) := unzip (fun p => Some p) facts_substring true true (bs "/x/dest/") a (mkSt [bs "/x"; bs "/"] [] []) in
   r = RNil /\ List.length (ops s) = 13%nat /\ forallb (fun o => withinb (bs "/x/dest") (op_path o)) (ops s) = true /\
   fl = [bs "/x/dest/d"; bs "/x/dest/d/f.txt"; bs "/x/dest/n/i"; bs "/x/dest/n/i/j"].
 Proof. vm_compute. repeat split; reflexivity. Qed.
